@@ -155,6 +155,11 @@ def secidxLoop (wantIndex : Bool) : Nat → Cfg → List (Nat × Nat) → Option
             else
               secidxLoop wantIndex fuel s (steps ++ [(oi, ii)]) (some ⟨steps, oi⟩) q.1 (name1.drop seps)
 
+/-- the keys of a free-form section are any strings: a name that looks like a path is a key first (fix F49: a repeated
+key `"a|b"` was not found again and added a second time) -/
+def keyFirst (c : Cfg) (name : Bytes) (wantIndex : Bool) : Option Nat :=
+  if !wantIndex && c.flags.keystrval then getoptLeaf c name else none
+
 /-- the resolver proper reports what it would say; whether anything is said at all is decided by
 the flags of the context the lookup started from: nothing with `CFGF_IGNORE_UNKNOWN`, and nothing
 when a free-form (`CFGF_KEYSTRVAL`) section is asked for an option — there any name is a key, also
@@ -162,8 +167,11 @@ one that looks like a path, and the parser adds it -/
 def getoptSecidx (c : Cfg) (name : Bytes) (wantIndex : Bool) : PathOut :=
   if name.isEmpty then ⟨none, -1, []⟩
   else
-    let r := secidxLoop wantIndex (name.length + 1) c [] none (-1) name
-    if c.flags.ignoreUnknown || (!wantIndex && c.flags.keystrval) then { r with diags := [] } else r
+    match keyFirst c name wantIndex with
+    | some i => ⟨some ⟨[], i⟩, -1, []⟩
+    | none =>
+      let r := secidxLoop wantIndex (name.length + 1) c [] none (-1) name
+      if c.flags.ignoreUnknown || (!wantIndex && c.flags.keystrval) then { r with diags := [] } else r
 
 /-- `cfg_getopt` -/
 def getoptPath (c : Cfg) (name : Bytes) : PathOut := getoptSecidx c name false
